@@ -228,12 +228,12 @@ def run_C04(rng, tier, deep):
     for _ in range(budget(tier, deep, 30, 300)):
         c = random_case(rng, precision=str(rng.choice(["double", "double", "double", "single"])))
         ny, nx = c["q"].shape
-        c["q"] = random_source(rng, ny, nx, "signed")
+        c["q"] = random_source(rng, ny, nx, str(rng.choice(["signed", "signed", "dipole", "zero"])))
         c["bg"] = float(rng.normal())
-        c["par"] = dict(q2=random_source(rng, ny, nx, rng.choice(["signed", "sparse", "random"])),
+        c["par"] = dict(q2=random_source(rng, ny, nx, rng.choice(["signed", "sparse", "random", "dipole"])),
                         a=float(rng.normal() * 3), b=float(rng.normal() * 3), bg2=float(rng.normal() * 5))
         run_oracle(st, o_linearity, c)
-        if rng.random() < 0.5:
+        if rng.random() < 0.7:
             run_oracle(st, o_bg_offset, c)
         if rng.random() < 0.5:
             run_oracle(st, o_fp_indep_q, c)
@@ -291,8 +291,10 @@ def o_reciprocity(case):
         c_pt = disp[0][k, jm, im] - bg
         sf = float(np.sum(q * fp[1][k]))
         sc = float(np.sum(q * (fp[0][k] - bg)))
+        if not np.any(q):
+            return None   # an identically zero source: both sides vanish
         scale_f = max(float(np.max(np.abs(disp[1][k]))), 1e-300)
-        scale_c = max(float(np.max(np.abs(disp[0][k] - bg))), 1e-300)
+        scale_c = max(float(np.max(np.abs(disp[0][k] - bg))), abs(bg) * 1e-2, 1e-300)
         ef = abs(sf - f_pt) / scale_f
         ec = abs(sc - c_pt) / scale_c
         if not ef <= tol:
@@ -766,6 +768,10 @@ def run_C07(rng, tier, deep):
         c = random_case(rng)
         if c["halo"] is not None and c["_kinds"]["halo"] == "comm":
             c["halo"] = c["halo"] * 1.37   # avoid int(halo/dx) sitting on a float-rounding tie
+        if c["halo"] is None:
+            # the default halo max(xmax, ymax) is a whole number of cells along the longer axis, so int(halo/dx) sits
+            # exactly on a float-rounding tie that a rescaling of all lengths can flip; use an explicit halo off the tie
+            c["halo"] = 0.93 * max(c["domain"])
         if c["_kinds"]["meas"] == "grid":
             pass
         c["par"] = dict(kind=str(rng.choice(["length", "velocity"])), s=float(10 ** rng.uniform(-3, 3)))
